@@ -144,7 +144,7 @@ def fault_class(case):
 def _fault_class(case):
     fa = _fault_actions(case)
     if case.get('boom'):
-        return 'func-raises'
+        return 'func-raises' + ('' if (case.get('boomkind') or 'ValueError') == 'ValueError' else '-' + case['boomkind'])
     if not fa:
         return 'no-fault'
     pid, where, task, a, v, delayed = fa[0]
@@ -163,7 +163,12 @@ def model_fault_specs(case):
     specs = [[]]
     for i in case.get('boom') or []:
         p = max(q for q in range(ncpu) if starts[q] <= i)
-        specs = [s + ['%d:raise:%d' % (p, i - starts[p])] for s in specs]     # p = 0: the function raises in the master
+        bk = case.get('boomkind') or 'ValueError'
+        if p > 0 and bk.startswith('SystemExit'):
+            # the process bootstrap turns SystemExit(c) into exit code c without a traceback
+            specs = [s + ['%d:exit:%d:%d' % (p, i - starts[p], int(bk[10:]))] for s in specs]
+        else:
+            specs = [s + ['%d:raise:%d' % (p, i - starts[p])] for s in specs]     # p = 0: the function raises in the master
     if ncpu > 1:
         for pid, where, task, a, v, delayed in _fault_actions(case):
             if not (1 <= pid < ncpu):
@@ -215,8 +220,11 @@ def outcome_class(case, out):
 def check_outcome(case, out, watchdog):
     """None | (failure mode, text) for one run of one case"""
     n = case['n']
-    what = 'parallelize(ncpu=%d, %d tasks, plan=%r, slow tasks=%r, raising tasks=%r)' % (
-        case['ncpu'], n, case.get('plan'), case.get('msleep'), case.get('boom'))
+    what = 'parallelize(ncpu=%d, %d tasks, plan=%r, slow tasks=%r, raising tasks=%r%s%s)' % (
+        case['ncpu'], n, case.get('plan'), case.get('msleep'), case.get('boom'),
+        (' with %s' % case['boomkind']) if case.get('boomkind') else '',
+        (', every task %s' % {'nested': 'runs a parallel map itself (ncpu=%s, %s tasks)' % tuple(case.get('inner') or (1, 0)), 'thread': 'computes in a thread of its own',
+                              'mpchild': 'starts a multiprocessing child'}[case['does']]) if case.get('does') else '')
     if case.get('api') == 'do_trials':
         what = 'do_trials(n=%d, ncpu=%d, plan=%r)' % (n, case['ncpu'], case.get('plan'))
     if case.get('interactive'):
@@ -268,6 +276,9 @@ def _check_outcome(case, out, what):
         if exp_err is False:
             return 'spurious-error', '%s raised %s: %s although no worker failed' % (what, out.get('etype'), out.get('msg'))
         acc = ACCIDENTAL & set(out.get('mro') or [out.get('etype')])
+        bk = (case.get('boomkind') or 'ValueError').rstrip('0123456789')
+        if case.get('boom') and out.get('etype') == bk:
+            acc = set()     # the function's own exception, propagated from the master's chunk (or ncpu = 1)
         if acc and case['ncpu'] >= 1 and case.get('ncpu_values') is None:      # an illegal worker count is outside the quantifier: any exception is a rejection
             return 'accidental-error', '%s ended with %s: %s — an accident of the implementation, not a reported worker failure' % (
                 what, out.get('etype'), out.get('msg'))
@@ -324,13 +335,15 @@ def eval_group(cases, outs, watchdog):
 def o_pmap(ctx, case):
     """case: {'cases': [fixture cases sharing (api, ncpu, n, seed)]}"""
     cases = case['cases']
+    # a hang of the large-result class shows within 2.5 s (a healthy run of these cases takes < 1 s)
+    cases = [dict(c, watchdog=min(float(c['watchdog']), 2.5)) if c.get('watchdog') and int(c.get('rsize') or 0) >= PIPE_BUF else c for c in cases]
     outs = pf.run_cases(cases, timeout=pf.WATCHDOG_S)
     r = eval_group(cases, outs, pf.WATCHDOG_S)
     return r[1] if r else None
 
 
-def model_outcomes(ctx, items, exhaustive_limit):
-    """items: list of (ncpu, n, spec, logs); returns {item: set of outcome strings}"""
+def model_outcome_lines(ctx, items, exhaustive_limit):
+    """items: list of (ncpu, n, spec, logs); returns (driver lines, owner of each line)"""
     lines, owner = [], []
     for it in items:
         ncpu, n, spec, logs = it
@@ -345,10 +358,18 @@ def model_outcomes(ctx, items, exhaustive_limit):
                 ','.join(str(ctx.rng.randrange(ncpu)) for _ in range(40)),
                 # every child up to (not including) its exit, then the master alone: it has to wait in join
                 ','.join([str(p) for p in range(1, ncpu) for _ in range(ks[p] + 2)] + ['0'] * (ks[0] + 6 * ncpu + 4)) or '-']
+        if exhaustive_limit(ncpu, n):
+            pres = [pres[0], pres[4]]      # all schedules are explored anyway: two runs for the branch coverage
         for pre in pres:
             lines.append('run cur %d %d %s %s %s' % (ncpu, n, spec, lg, pre))
             owner.append((it, False))
-    ans = ctx.driver('C09', lines)
+    return lines, owner
+
+
+def model_outcomes(ctx, items, exhaustive_limit, drv=None):
+    """returns {item: set of outcome strings}; drv: function lines -> answers (default: one driver process)"""
+    lines, owner = model_outcome_lines(ctx, items, exhaustive_limit) if not isinstance(items, tuple) else items
+    ans = (drv or (lambda ls: ctx.driver('C09', ls)))(lines)
     res = {}
     for (it, expl), a in zip(owner, ans):
         if a in ('bad-op', '') or 'budget' in a:
@@ -412,7 +433,7 @@ def partial_write_case():
     c = make_case(2, 4, fault={'pid': 1, 'point': 'queued', 'kind': 'exit', 'code': 3, 'flushed': True, 'delay': 0.1}, rsize=200000,
                   logs=False, variant='partial-write')
     c['msleep'] = {0: 0.5}
-    return dict(c, watchdog=3.5)
+    return dict(c, watchdog=2.5)
 
 
 ORACLES = {'pmap': o_pmap, 'corr': o_corr, 'split': o_split}
@@ -547,23 +568,6 @@ def run(ctx):
                         'a child that dies after it has delivered its result and its log sentinel (exit code ignored at join) is not a failure: the call returns the complete result',
                         'no child dies in the middle of a pipe write (NoPartial) for the termination / fails-loudly theorems; the code violates the property there (open finding, c09_partial_write_hang_counterexample)']
 
-    # ---- chunking: model vs numpy on the object array the code builds
-    nmax, cmax = ctx.n(24, 60), ctx.n(9, 16)
-    pairs = [(n, c) for n in range(nmax + 1) for c in range(1, cmax + 1)]
-    ans = ctx.driver('C09', ['split %d %d' % p for p in pairs])
-    import numpy as np
-    for (n, c), a in zip(pairs, ans):
-        ctx.case(key=('split', n, c), desc={'split': [n, c], 'model': a} if (n, c) == (7, 3) else None)
-        ctx.count('corr:split')
-        args_list = [((i,), {'k': i}) for i in range(n)]
-        impl = '|'.join((','.join(str(x[0][0]) for x in ch) or '-') for ch in np.array_split(np.array(args_list, dtype=object), c))
-        bad = o_split(ctx, {'n': n, 'ncpu': c})
-        if bad:
-            ctx.violation('split', {'n': n, 'ncpu': c}, bad, signature='C09/array_split/not-a-partition')
-        elif impl != a:
-            ctx.violation('split', {'n': n, 'ncpu': c}, 'array_split: implementation %s, model %s' % (impl, a), kind='correspondence',
-                          relation='exact chunks', impl_output=impl, model_output=a, signature='C09/corr/split', no_failing_input=True)
-
     # ---- cases with real processes
     groups = []     # list of lists of fixture cases (one group shares api, ncpu, n, seed)
     # the three leads of the design (hang witnesses on the pinned commit) run first
@@ -584,7 +588,12 @@ def run(ctx):
     for ncpu in range(2, FC + 1):
         for n in range(FT + 1):
             for fault in _fault_grid(ncpu, n):
-                groups.append(list(_fault_variants(ncpu, n, fault)))
+                vs = list(_fault_variants(ncpu, n, fault))
+                if not ctx.thorough and ncpu >= 3 and fault['pid'] > 1 and fault['point'] != 'task':
+                    # quick tier: for the faults after the last task all three completion orders for the first child only
+                    # (the children are symmetric there), the others get the order picked by the seed
+                    vs = [vs[0], vs[1 + rng.randrange(2)]]
+                groups.append(vs)
     if ctx.thorough:
         for _ in range(400):
             ncpu, n = rng.randrange(2, 9), rng.randrange(0, 21)
@@ -714,6 +723,29 @@ def run(ctx):
             c = dict(make_case(2, n, seed=boundary_seed(n, 23), api='do_trials', variant='do_trials-ncpu'), ncpu_values=[cv, lv])
             trial_cases.append(c)
             groups.append([c])
+    # ---- round 4: what the function *does* (it may run a parallel map itself, start threads or processes) and *which*
+    # exception a failing task raises (incl. the control-flow exceptions StopIteration, GeneratorExit, SystemExit, KeyboardInterrupt)
+    for ncpu in (1, 2, 3):
+        for does, inner in (('nested', [2, 3]), ('nested', [1, 2]), ('nested', [3, 2]), ('thread', None), ('mpchild', None)):
+            g = []
+            for sl in ([], [ncpu - 1]):
+                c = make_case(ncpu, 5, slow=sl, seed=boundary_seed(ncpu, 61), variant='func-does-' + does)
+                c.update(does=does, inner=inner)
+                g.append(c)
+            ctx.count('func-does:%s' % does, len(g))
+            groups.append(g)
+    c = make_case(3, 6, fault={'pid': 1, 'point': 'task', 't': 1, 'kind': 'raise'}, variant='func-does-nested+fault')
+    c.update(does='nested', inner=[2, 2])
+    groups.append([c])
+    for bk in ('StopIteration', 'GeneratorExit', 'StopAsyncIteration', 'SystemExit0', 'SystemExit3', 'KeyboardInterrupt', 'TaskAbort',
+               'KeyError', 'AssertionError', 'MemoryError'):
+        for ncpu, n in ((1, 3), (2, 4), (3, 6)):
+            ks = chunk_sizes(n, ncpu)
+            for i in sorted({0, ks[0] - 1, n - 1, ks[0]} & set(range(n))):     # master chunk first/last, first and last task of the workers
+                c = make_case(ncpu, n, variant='func-raises-kind')
+                c.update(boom=[i], boomkind=bk)
+                ctx.count('exception-kind:%s' % bk)
+                groups.append([c])
     # do_trials without trials; worker counts that are none
     for ncpu in (1, 2):
         groups.append([make_case(ncpu, 0, seed=3, api='do_trials', variant='do_trials-n0')])
@@ -738,10 +770,13 @@ def run(ctx):
     for c in flat:
         if int(c.get('rsize') or 0) >= PIPE_BUF and 'watchdog' not in c:
             c['watchdog'] = 5.0
+    import time as _t
+    _t0 = _t.time()
     try:
         outs = pf.run_cases(flat, timeout=W, stop=stop, on_result=on_result)
     except (OSError, EOFError, ValueError) as e:     # fork/pipe trouble of the harness itself is not a verdict
         raise MachineryError('C09 process runner failed: %s: %s' % (type(e).__name__, e))
+    ctx.extra['phase_s'] = {'real_runs': round(_t.time() - _t0, 1), 'before_runs': round(_t0 - ctx.t0, 1)}
     by_id = {id(c): o for c, o in zip(flat, outs)}
     walls = [o['wall'] for o in outs if 'wall' in o]
     ctx.extra['max_wall_s_of_a_run'] = max(walls) if walls else None
@@ -767,24 +802,50 @@ def run(ctx):
         for s in specs:
             items[(c['ncpu'], c['n'], s, bool(c.get('logs')))] = True
     lim = (lambda ncpu, n: ncpu <= 3 and n <= 4) if not ctx.thorough else (lambda ncpu, n: ncpu <= 3 and n <= 6 or ncpu == 4 and n <= 4)
-    mo = model_outcomes(ctx, sorted(items), lim)
+    # every request to the model goes through ONE driver process (the start-up of `lean --run` costs about a second)
+    mo_lines = model_outcome_lines(ctx, sorted(items), lim)
+    lead_lines = ['explore orig 2 4 1:exit:0:0 0', 'explore orig 2 4 1:xq:3:1 0', 'explore orig 3 6 1:raise:1 0']
+    sw_lines = ['explore swapped 2 2 - 0', 'explore cur 2 2 - 0']
+    toks = ['none', 'int:1', 'int:2', 'int:8', 'int:0', 'int:-3', 'bool:1', 'bool:0', 'float', 'npint', 'str']
+    pairs_n = [{'cfg': a, 'local': b} for a in toks for b in toks]
+    impl_req = [_ncpu_impl(c) for c in pairs_n]
+    tl_lines = ['trials %s %d' % (_ncpu_impl({'cfg': c['ncpu_values'][0], 'local': c['ncpu_values'][1]})[1][7:], c['n']) for c in trial_cases]
+    st_cases = [c for c in flat if c.get('interactive') and c.get('summary')]
+    st_lines = ['status 1 2849 %d 1' % max(chunk_sizes(c['n'], c['ncpu'])[1:]) for c in st_cases] + ['status 1 2849 4000 0', 'status 0 2849 4000 0']
+    # ---- chunking: model vs numpy on the object array the code builds
+    nmax, cmax = ctx.n(24, 60), ctx.n(9, 16)
+    pairs = [(n, c) for n in range(nmax + 1) for c in range(1, cmax + 1)]
+    batch = list(dict.fromkeys(['split %d %d' % p for p in pairs] + mo_lines[0] + lead_lines + sw_lines + [r for _, r in impl_req] + tl_lines + st_lines))
+    cache = dict(zip(batch, ctx.driver('C09', batch)))
+    drv = lambda ls: [cache[l] for l in ls]      # noqa
+    mo = model_outcomes(ctx, mo_lines, lim, drv=drv)
+    ans = drv(['split %d %d' % p for p in pairs])
+    import numpy as np
+    for (n, c), a in zip(pairs, ans):
+        ctx.case(key=('split', n, c), desc={'split': [n, c], 'model': a} if (n, c) == (7, 3) else None)
+        ctx.count('corr:split')
+        args_list = [((i,), {'k': i}) for i in range(n)]
+        impl = '|'.join((','.join(str(x[0][0]) for x in ch) or '-') for ch in np.array_split(np.array(args_list, dtype=object), c))
+        bad = o_split(ctx, {'n': n, 'ncpu': c})
+        if bad:
+            ctx.violation('split', {'n': n, 'ncpu': c}, bad, signature='C09/array_split/not-a-partition')
+        elif impl != a:
+            ctx.violation('split', {'n': n, 'ncpu': c}, 'array_split: implementation %s, model %s' % (impl, a), kind='correspondence',
+                          relation='exact chunks', impl_output=impl, model_output=a, signature='C09/corr/split', no_failing_input=True)
+
     ctx.extra['model_configurations'] = len(items)
     # the leads: the model of the pinned commit's gather loop can get stuck, the current one cannot
-    lead_lines = ['explore orig 2 4 1:exit:0:0 0', 'explore orig 2 4 1:xq:3:1 0', 'explore orig 3 6 1:raise:1 0']
-    lead_ans = ctx.driver('C09', lead_lines)
+    lead_ans = drv(lead_lines)
     ctx.extra['pinned_commit_model_outcomes_for_leads'] = dict(zip(lead_lines, lead_ans))
     if not all('stuck' in a.split(';') for a in lead_ans):
         raise MachineryError('Orig model no longer shows the hang witnesses: %r' % lead_ans)
 
-    sw = ctx.driver('C09', ['explore swapped 2 2 - 0', 'explore cur 2 2 - 0'])
+    sw = drv(sw_lines)
     ctx.extra['swapped_order_model_outcomes_fault_free'] = sw[0]
     if 'error' not in sw[0].split(';') or 'error' in sw[1].split(';'):
         raise MachineryError('Swapped / current model no longer differ on the fault-free instance: %r' % sw)
     # ---- get_ncpu: model vs implementation, every pair of value kinds
-    toks = ['none', 'int:1', 'int:2', 'int:8', 'int:0', 'int:-3', 'bool:1', 'bool:0', 'float', 'npint', 'str']
-    pairs_n = [{'cfg': a, 'local': b} for a in toks for b in toks]
-    impl_req = [_ncpu_impl(c) for c in pairs_n]
-    ans_n = ctx.driver('C09', [r for _, r in impl_req])
+    ans_n = drv([r for _, r in impl_req])
     for c, (imp, _), mod in zip(pairs_n, impl_req, ans_n):
         ctx.case(key=('ncpu', c['cfg'], c['local']))
         ctx.count('corr:get_ncpu:' + (mod if not mod.startswith('ok') else 'ok'))
@@ -796,8 +857,7 @@ def run(ctx):
     ctx.extra['counts'] = {'zero_hit_model_branches': zero, 'unreachable_by_theorem': UNREACHABLE_BRANCHES,
                            'unreachable_hit': [b for b in UNREACHABLE_BRANCHES if ctx.counters.get('model-branch:' + b)]}
     # ---- Analysis.do_trials: model op `trials` (get_ncpu + parallel map + result_list[0].dtype) vs the real method
-    tl_lines = ['trials %s %d' % (_ncpu_impl({'cfg': c['ncpu_values'][0], 'local': c['ncpu_values'][1]})[1][7:], c['n']) for c in trial_cases]
-    for c, mod in zip(trial_cases, ctx.driver('C09', tl_lines)):
+    for c, mod in zip(trial_cases, drv(tl_lines)):
         o = by_id[id(c)]
         if o['out'] == 'skipped':
             continue
@@ -809,9 +869,7 @@ def run(ctx):
                           kind='correspondence', relation='outcome / exception class', impl_output=imp, model_output=want,
                           signature='C09/corr/do_trials', no_failing_input=True)
     # ---- status queue: Model/ParStatus (pipe capacity 64 KiB / 23 B per record) vs the large interactive runs
-    st_cases = [c for c in flat if c.get('interactive') and c.get('summary')]
-    st_lines = ['status 1 2849 %d 1' % max(chunk_sizes(c['n'], c['ncpu'])[1:]) for c in st_cases] + ['status 1 2849 4000 0', 'status 0 2849 4000 0']
-    st_ans = ctx.driver('C09', st_lines)
+    st_ans = drv(st_lines)
     if st_ans[-2:] != ['stuck', 'exits']:
         raise MachineryError('ParStatus model: %r' % st_ans[-2:])
     for c, mod in zip(st_cases, st_ans):
@@ -830,7 +888,7 @@ def run(ctx):
         for c, o in zip(g, gouts):
             if o['out'] == 'skipped':
                 continue
-            ctx.case(key=(c['api'], c['ncpu'], c['n'], c['plan'], c['msleep'], c['boom'], c['seed'], c.get('seeds'), c.get('interactive'), c.get('rsize')),
+            ctx.case(key=(c['api'], c['ncpu'], c['n'], c['plan'], c['msleep'], c['boom'], c['seed'], c.get('seeds'), c.get('interactive'), c.get('rsize'), c.get('boomkind'), c.get('does'), c.get('inner')),
                      desc={'case': c, 'outcome': outcome_class(c, o), 'wall': o.get('wall')} if ctx.evaluations % 211 == 0 else None)
             ctx.count('run:%s:%s' % (c['api'], fault_class(c)))
             ctx.count('outcome:' + o['out'])
@@ -863,6 +921,7 @@ def run(ctx):
             ctx.violation('corr', c, 'observed outcome %s is not in the model outcome set %s, but no property oracle fails' % (cls, allowed),
                           kind='correspondence', relation='outcome class in model outcome set', impl_output=cls, model_output=allowed,
                           signature='C09/corr/outcome-class', no_failing_input=True)
+    ctx.extra['phase_s']['after_runs'] = round(_t.time() - _t0 - ctx.extra['phase_s']['real_runs'], 1)
     ctx.extra['correspondence_disagreements'] = n_dis
     # observed chunking (runs of equal os pid in a fault-free result) vs the model's chunk sizes
     for c, o in zip(flat, outs):
